@@ -93,7 +93,7 @@ func runConcurrent(c concCase) concObs {
 		if o.kind == "report" {
 			co.Conforms, co.Sha = reportFacts(o.report)
 		}
-		return histCall{callObs: co, PKey: pkey, DKey: dkey, DClass: c.DClasses[dkey]}
+		return histCall{callObs: co, PKey: pkey, DKey: dkey, DClass: c.DClasses[dkey], PClass: c.PClasses[pkey]}
 	}
 	cfgOf := func(name string) config.ReportConfiguration {
 		rc := config.DefaultReportConfiguration()
